@@ -23,9 +23,6 @@ theorem slc_closed (r : Rates) (L : Nat) (p : Product) (ho : p.other.length = L)
   have ht' : t < p.other.length := by rw [ho]; exact List.mem_range.mp ht
   simp [List.getD_eq_getElem?_getD, List.getElem?_map, List.getElem?_eq_getElem ht']
 
-/-- weights of the BICYCLE model -/
-def wB (r : Rates) (L : Nat) : List Rat := zipMul (inflB r.rinfl L) (discB (iave r) L)
-
 theorem wB_length (r : Rates) (L : Nat) : (wB r L).length = L := by
   simp [wB, zipMul_length, inflB_length, discB_length]
 
@@ -44,12 +41,6 @@ theorem bicycleNumerator_linear (r : Rates) (L : Nat) (p : Product) (hg : 1 - r.
       sumL_map_mul (r.ctr / (1 - r.ctr) * ((1 + r.ic) * p.ccap * crf (iave r) L - p.ccap / (L : Rat))) _ _ (fun _ => rfl)]
   field_simp
   ring
-
-/-- capital coefficient κ of the BICYCLE numerator after the annuity identity (`CRF · Σ disc = 1`) -/
-def kappa (r : Rates) (L : Nat) : Rat :=
-  (1 + r.ic) + (1 + r.ic) * r.ptr * sumL (wB r L)
-    + r.ctr / (1 - r.ctr) * ((1 + r.ic) - sumL (discB (iave r) L) / (L : Rat))
-    - (1 + r.ic) * r.ritc / (1 - r.ctr)
 
 theorem bicycleNumerator_closed (r : Rates) (L : Nat) (p : Product) (hg : 1 - r.gtr ≠ 0)
     (hi : 0 < iave r) (hL : 0 < L) :
